@@ -7089,6 +7089,283 @@ let rec store_tree fuel id t0 =
            crash
              ('c'::('e'::('l'::('l'::(' '::('p'::('a'::('y'::('l'::('o'::('a'::('d'::(' '::('d'::('i'::('s'::('a'::('g'::('r'::('e'::('e'::('s'::(' '::('w'::('i'::('t'::('h'::(' '::('i'::('t'::('s'::(' '::('t'::('y'::('p'::('e'::[]))))))))))))))))))))))))))))))))))))))
 
+(** val budget_error : token -> n -> 'a1 m **)
+
+let budget_error t0 c =
+  runtime_error_cls EBudget t0 c
+
+(** val for_continues : z -> z -> z -> bool **)
+
+let for_continues stepv i stop =
+  if Z.ltb stepv Z0 then Z.leb stop i else Z.leb i stop
+
+(** val run_body : unit m -> bool m **)
+
+let run_body br =
+  catch (bind br (fun _ -> ret true)) (fun fl ->
+    match fl with
+    | FBreak _ -> Some (ret false)
+    | FContinue _ -> Some (ret true)
+    | _ -> None)
+
+(** val tick : limits -> token -> n -> unit m **)
+
+let tick lim t0 c =
+  bind (gets (fun s -> s.s_steps)) (fun s ->
+    if (&&) (Z.ltb Z0 lim.max_steps) (Z.ltb lim.max_steps (Z.add s (Zpos XH)))
+    then budget_error t0 c
+    else modify (set_steps (Z.add s (Zpos XH))))
+
+(** val cond_bool : token -> n -> result m -> bool m **)
+
+let cond_bool t0 c ce =
+  bind ce (fun cr ->
+    if negb (dk_eqb cr.r_type.dk KBool) then rt_error t0 c else as_bool cr)
+
+(** val if_chain :
+    token -> n -> (result m option * unit m) list -> result m **)
+
+let rec if_chain t0 c = function
+| [] -> ret res_none
+| p0 :: rest0 ->
+  let (o, b) = p0 in
+  (match o with
+   | Some ce ->
+     bind (cond_bool t0 c ce) (fun v ->
+       if v then bind b (fun _ -> ret res_none) else if_chain t0 c rest0)
+   | None -> bind b (fun _ -> ret res_none))
+
+(** val case_chain : (bool m * unit m) list -> result m **)
+
+let rec case_chain = function
+| [] -> ret res_none
+| p0 :: rest0 ->
+  let (m0, b) = p0 in
+  bind m0 (fun v ->
+    if v then bind b (fun _ -> ret res_none) else case_chain rest0)
+
+(** val while_loop :
+    limits -> nat -> token -> n -> result m -> unit m -> result m **)
+
+let rec while_loop lim k t0 c ce br =
+  match k with
+  | O -> failm FFuel
+  | S k' ->
+    bind (tick lim t0 c) (fun _ ->
+      bind (cond_bool t0 c ce) (fun v ->
+        if negb v
+        then ret res_none
+        else bind (run_body br) (fun go_on ->
+               if go_on then while_loop lim k' t0 c ce br else ret res_none)))
+
+(** val repeat_loop :
+    limits -> nat -> token -> n -> result m -> unit m -> result m **)
+
+let rec repeat_loop lim k t0 c ce br =
+  match k with
+  | O -> failm FFuel
+  | S k' ->
+    bind (tick lim t0 c) (fun _ ->
+      bind (run_body br) (fun go_on ->
+        if negb go_on
+        then ret res_none
+        else bind (cond_bool t0 c ce) (fun v ->
+               if v then ret res_none else repeat_loop lim k' t0 c ce br)))
+
+(** val for_loop :
+    limits -> nat -> token -> n -> n -> z -> z -> unit m -> result m **)
+
+let rec for_loop lim k t0 c it stepv stop br =
+  match k with
+  | O -> failm FFuel
+  | S k' ->
+    bind (get_cell it) (fun cl ->
+      match cl.c_val with
+      | PInt i ->
+        if for_continues stepv i stop
+        then bind (tick lim t0 c) (fun _ ->
+               bind (run_body br) (fun go_on ->
+                 if negb go_on
+                 then ret res_none
+                 else bind (get_cell it) (fun cl' ->
+                        match cl'.c_val with
+                        | PInt j ->
+                          bind
+                            (set_cell_val it (PInt (wrap64 (Z.add j stepv))))
+                            (fun _ -> for_loop lim k' t0 c it stepv stop br)
+                        | _ ->
+                          crash
+                            ('c'::('e'::('l'::('l'::(' '::('p'::('a'::('y'::('l'::('o'::('a'::('d'::(' '::('d'::('i'::('s'::('a'::('g'::('r'::('e'::('e'::('s'::(' '::('w'::('i'::('t'::('h'::(' '::('i'::('t'::('s'::(' '::('t'::('y'::('p'::('e'::[])))))))))))))))))))))))))))))))))))))))
+        else ret res_none
+      | _ ->
+        crash
+          ('c'::('e'::('l'::('l'::(' '::('p'::('a'::('y'::('l'::('o'::('a'::('d'::(' '::('d'::('i'::('s'::('a'::('g'::('r'::('e'::('e'::('s'::(' '::('w'::('i'::('t'::('h'::(' '::('i'::('t'::('s'::(' '::('t'::('y'::('p'::('e'::[])))))))))))))))))))))))))))))))))))))
+
+(** val os_name_ok : str -> bool **)
+
+let os_name_ok n0 = match n0 with
+| [] -> false
+| _ :: _ ->
+  (&&)
+    ((&&)
+      ((&&)
+        (forallb (fun c -> (&&) (negb (aeqb c '/')) (negb (aeqb c ch_nul)))
+          n0)
+        (Z.leb (Z.of_nat (length n0)) (Zpos (XI (XI (XI (XI (XI (XI (XI
+          XH)))))))))) (negb (str_eqb n0 (str_of_string ('.'::[])))))
+    (negb (str_eqb n0 (str_of_string ('.'::('.'::[])))))
+
+(** val fs_set : str -> str -> (str * str) list -> (str * str) list **)
+
+let rec fs_set n0 v = function
+| [] -> (n0, v) :: []
+| p0 :: r ->
+  let (k, x) = p0 in
+  if str_eqb n0 k then (k, v) :: r else (k, x) :: (fs_set n0 v r)
+
+(** val fs_get : str -> (str * str) list -> str option **)
+
+let fs_get =
+  assoc_str
+
+(** val find_file : str -> ofile list -> ofile option **)
+
+let rec find_file n0 = function
+| [] -> None
+| f :: r -> if str_eqb f.of_name n0 then Some f else find_file n0 r
+
+(** val replace_file : ofile -> ofile list -> ofile list **)
+
+let rec replace_file f = function
+| [] -> []
+| g :: r ->
+  if str_eqb g.of_name f.of_name then f :: r else g :: (replace_file f r)
+
+(** val remove_file : str -> ofile list -> ofile list **)
+
+let rec remove_file n0 = function
+| [] -> []
+| g :: r -> if str_eqb g.of_name n0 then r else g :: (remove_file n0 r)
+
+(** val close_file_effect : ofile -> unit m **)
+
+let close_file_effect f =
+  match f.of_mode with
+  | FRandom ->
+    if f.of_modified
+    then modify (fun s ->
+           set_fs (fs_set f.of_name (store_records f.of_recs) s.s_fs) s)
+    else ret ()
+  | _ -> ret ()
+
+(** val create_file : str -> fmode -> bool m **)
+
+let create_file name mode =
+  if negb (os_name_ok name)
+  then ret false
+  else bind (gets (fun s -> s.s_fs)) (fun fs ->
+         match fs_get name fs with
+         | Some content ->
+           (match mode with
+            | FRead ->
+              bind
+                (modify (fun s ->
+                  set_files
+                    (app s.s_files ({ of_name = name; of_mode = FRead;
+                      of_rest = content; of_recs = []; of_ptr = Z0;
+                      of_modified = false } :: [])) s)) (fun _ -> ret true)
+            | FWrite ->
+              bind
+                (modify (fun s ->
+                  set_fs (fs_set name [] s.s_fs)
+                    (set_files
+                      (app s.s_files ({ of_name = name; of_mode = FWrite;
+                        of_rest = []; of_recs = []; of_ptr = Z0;
+                        of_modified = false } :: [])) s))) (fun _ -> 
+                ret true)
+            | FAppend ->
+              bind
+                (modify (fun s ->
+                  set_files
+                    (app s.s_files ({ of_name = name; of_mode = FAppend;
+                      of_rest = []; of_recs = []; of_ptr = Z0; of_modified =
+                      false } :: [])) s)) (fun _ -> ret true)
+            | FRandom ->
+              bind
+                (modify (fun s ->
+                  set_files
+                    (app s.s_files ({ of_name = name; of_mode = FRandom;
+                      of_rest = []; of_recs = (load_records content);
+                      of_ptr = Z0; of_modified = false } :: [])) s))
+                (fun _ -> ret true))
+         | None ->
+           (match mode with
+            | FRead -> ret false
+            | FAppend -> ret false
+            | x ->
+              bind
+                (modify (fun s ->
+                  set_fs (fs_set name [] s.s_fs)
+                    (set_files
+                      (app s.s_files ({ of_name = name; of_mode = x;
+                        of_rest = []; of_recs = []; of_ptr = Z0;
+                        of_modified = false } :: [])) s))) (fun _ -> 
+                ret true)))
+
+(** val update_file : ofile -> unit m **)
+
+let update_file f =
+  modify (fun s -> set_files (replace_file f s.s_files) s)
+
+(** val file_read_line : ofile -> str * ofile **)
+
+let file_read_line f =
+  let go =
+    let rec go s acc =
+      match s with
+      | [] -> ((rev acc), [])
+      | c :: r -> if aeqb c ch_nl then ((rev acc), r) else go r (c :: acc)
+    in go
+  in
+  let (l, r) = go f.of_rest [] in
+  (l, { of_name = f.of_name; of_mode = f.of_mode; of_rest = r; of_recs =
+  f.of_recs; of_ptr = f.of_ptr; of_modified = f.of_modified })
+
+(** val set_nth_str : str list -> z -> str -> str list **)
+
+let rec set_nth_str l i v =
+  match l with
+  | [] -> []
+  | x :: r ->
+    if Z.eqb i Z0 then v :: r else x :: (set_nth_str r (Z.sub i (Zpos XH)) v)
+
+(** val rf_seek : ofile -> z -> ofile option **)
+
+let rf_seek f addr =
+  if (||) (Z.ltb addr (Zpos XH))
+       (Z.ltb (Z.add (Z.of_nat (length f.of_recs)) (Zpos XH)) addr)
+  then None
+  else Some { of_name = f.of_name; of_mode = f.of_mode; of_rest = f.of_rest;
+         of_recs = f.of_recs; of_ptr = (Z.sub addr (Zpos XH)); of_modified =
+         f.of_modified }
+
+(** val rf_put : ofile -> str -> ofile **)
+
+let rf_put f txt =
+  let n0 = Z.of_nat (length f.of_recs) in
+  let recs' =
+    if Z.eqb f.of_ptr n0
+    then app f.of_recs (txt :: [])
+    else set_nth_str f.of_recs f.of_ptr txt
+  in
+  { of_name = f.of_name; of_mode = f.of_mode; of_rest = f.of_rest; of_recs =
+  recs'; of_ptr = f.of_ptr; of_modified = true }
+
+(** val rf_get : ofile -> str option **)
+
+let rf_get f =
+  nth_z f.of_recs f.of_ptr
+
 (** val is_leap : z -> bool **)
 
 let is_leap y =
@@ -7306,19 +7583,6 @@ let bi_rand x r1 r2 =
          (rdiv (real_of_z r2) (real_of_z rand_max))
   else rzero
 
-(** val budget_error : token -> n -> 'a1 m **)
-
-let budget_error t0 c =
-  runtime_error_cls EBudget t0 c
-
-(** val tick : limits -> token -> n -> unit m **)
-
-let tick lim t0 c =
-  bind (gets (fun s -> s.s_steps)) (fun s ->
-    if (&&) (Z.ltb Z0 lim.max_steps) (Z.ltb lim.max_steps (Z.add s (Zpos XH)))
-    then budget_error t0 c
-    else modify (set_steps (Z.add s (Zpos XH))))
-
 (** val alloc_cells : limits -> z -> n -> unit m **)
 
 let alloc_cells lim n0 c =
@@ -7487,6 +7751,172 @@ let arith_int op a b =
 let mod_real x y =
   let z0 = rdiv x y in rmul (rsub z0 (rfloor z0)) y
 
+(** val eval_arith : token -> n -> result -> result -> result m **)
+
+let eval_arith t0 c lr0 rr0 =
+  let swap = (&&) (dt_is lr0.r_type KInt) (dt_is rr0.r_type KEnum) in
+  let lr = if swap then rr0 else lr0 in
+  let rr = if swap then lr0 else rr0 in
+  if (&&) ((&&) (dt_is lr.r_type KEnum) (dt_is rr.r_type KInt))
+       ((||) (tt_eqb t0.tt TPLUS) (tt_eqb t0.tt TMINUS))
+  then bind (as_payload lr) (fun p0 ->
+         bind (as_int rr) (fun k ->
+           match p0 with
+           | PEnum (tn, idx) ->
+             bind (lookup_enum_def c tn true) (fun d ->
+               match d with
+               | Some vals ->
+                 let n0 = Z.of_nat (length vals) in
+                 if Z.eqb n0 Z0
+                 then crash
+                        ('e'::('n'::('u'::('m'::(' '::('a'::('r'::('i'::('t'::('h'::('m'::('e'::('t'::('i'::('c'::(':'::(' '::('r'::('e'::('m'::('a'::('i'::('n'::('d'::('e'::('r'::(' '::('b'::('y'::(' '::('z'::('e'::('r'::('o'::[]))))))))))))))))))))))))))))))))))
+                 else if swap
+                      then ret { r_type = { dk = KEnum; dname = (Some tn) };
+                             r_val = (Some (PEnum (tn,
+                             (enum_arith (tt_eqb t0.tt TPLUS) k idx n0)))) }
+                      else ret { r_type = { dk = KEnum; dname = (Some tn) };
+                             r_val = (Some (PEnum (tn,
+                             (enum_arith (tt_eqb t0.tt TPLUS) idx k n0)))) }
+               | None ->
+                 crash
+                   ('u'::('s'::('e'::('r'::('T'::('y'::('p'::('e'::('.'::('c'::('p'::('p'::(' '::('E'::('n'::('u'::('m'::(':'::(':'::('g'::('e'::('t'::('D'::('e'::('f'::('i'::('n'::('i'::('t'::('i'::('o'::('n'::(' '::('n'::('u'::('l'::('l'::[]))))))))))))))))))))))))))))))))))))))
+           | _ ->
+             crash
+               ('g'::('e'::('t'::('<'::('E'::('n'::('u'::('m'::('>'::(' '::('o'::('n'::(' '::('o'::('t'::('h'::('e'::('r'::(' '::('p'::('a'::('y'::('l'::('o'::('a'::('d'::[]))))))))))))))))))))))))))))
+  else if (||) (negb (is_numeric lr.r_type)) (negb (is_numeric rr.r_type))
+       then rt_error t0 c
+       else if (&&) (dt_is lr.r_type KInt) (dt_is rr.r_type KInt)
+            then bind (as_int lr) (fun a ->
+                   bind (as_int rr) (fun b ->
+                     match t0.tt with
+                     | TPLUS -> ret (res_of KInt (PInt (arith_int t0.tt a b)))
+                     | TMINUS ->
+                       ret (res_of KInt (PInt (arith_int t0.tt a b)))
+                     | TSTAR -> ret (res_of KInt (PInt (arith_int t0.tt a b)))
+                     | TSLASH ->
+                       if Z.eqb b Z0
+                       then rt_error t0 c
+                       else ret
+                              (res_of KReal (PReal
+                                (rdiv (real_of_z a) (real_of_z b))))
+                     | TDIV ->
+                       if Z.eqb b Z0
+                       then rt_error t0 c
+                       else ret (res_of KInt (PInt (arith_int t0.tt a b)))
+                     | TMOD ->
+                       if Z.eqb b Z0
+                       then rt_error t0 c
+                       else ret (res_of KInt (PInt (arith_int t0.tt a b)))
+                     | _ ->
+                       crash
+                         ('a'::('r'::('i'::('t'::('h'::('m'::('e'::('t'::('i'::('c'::('.'::('c'::('p'::('p'::(' '::('o'::('p'::('e'::('r'::('a'::('t'::('o'::('r'::(' '::('a'::('b'::('o'::('r'::('t'::[])))))))))))))))))))))))))))))))
+            else bind (num_as_real lr) (fun a ->
+                   bind (num_as_real rr) (fun b ->
+                     match t0.tt with
+                     | TPLUS -> ret (res_of KReal (PReal (radd a b)))
+                     | TMINUS -> ret (res_of KReal (PReal (rsub a b)))
+                     | TSTAR -> ret (res_of KReal (PReal (rmul a b)))
+                     | TSLASH ->
+                       if is_rzero b
+                       then rt_error t0 c
+                       else ret (res_of KReal (PReal (rdiv a b)))
+                     | TDIV ->
+                       if is_rzero b
+                       then rt_error t0 c
+                       else ret
+                              (res_of KInt (PInt
+                                (real_to_int64 (rfloor (rdiv a b)))))
+                     | TMOD ->
+                       if is_rzero b
+                       then rt_error t0 c
+                       else ret (res_of KReal (PReal (mod_real a b)))
+                     | _ ->
+                       crash
+                         ('a'::('r'::('i'::('t'::('h'::('m'::('e'::('t'::('i'::('c'::('.'::('c'::('p'::('p'::(' '::('o'::('p'::('e'::('r'::('a'::('t'::('o'::('r'::(' '::('a'::('b'::('o'::('r'::('t'::[])))))))))))))))))))))))))))))))
+
+(** val eval_cmp : token -> n -> result -> result -> result m **)
+
+let eval_cmp t0 c lr0 rr0 =
+  bind
+    (if (&&) (dt_is lr0.r_type KChar) (dt_is rr0.r_type KChar)
+     then bind (as_char lr0) (fun a ->
+            bind (as_char rr0) (fun b ->
+              ret ((res_of KInt (PInt (schar_of_ascii a))),
+                (res_of KInt (PInt (schar_of_ascii b))))))
+     else if (&&) (dt_is lr0.r_type KDate) (dt_is rr0.r_type KDate)
+          then bind (as_payload lr0) (fun a ->
+                 bind (as_payload rr0) (fun b ->
+                   match a with
+                   | PDate (d1, m1, y1) ->
+                     (match b with
+                      | PDate (d2, m2, y2) ->
+                        ret ((res_of KInt (PInt (date_key d1 m1 y1))),
+                          (res_of KInt (PInt (date_key d2 m2 y2))))
+                      | _ ->
+                        crash
+                          ('g'::('e'::('t'::('<'::('D'::('a'::('t'::('e'::('>'::(' '::('o'::('n'::(' '::('o'::('t'::('h'::('e'::('r'::(' '::('p'::('a'::('y'::('l'::('o'::('a'::('d'::[])))))))))))))))))))))))))))
+                   | _ ->
+                     crash
+                       ('g'::('e'::('t'::('<'::('D'::('a'::('t'::('e'::('>'::(' '::('o'::('n'::(' '::('o'::('t'::('h'::('e'::('r'::(' '::('p'::('a'::('y'::('l'::('o'::('a'::('d'::[]))))))))))))))))))))))))))))
+          else ret (lr0, rr0)) (fun x ->
+    let (lr, rr) = x in
+    if (||) (negb (is_numeric lr.r_type)) (negb (is_numeric rr.r_type))
+    then let eq = tt_eqb t0.tt TEQUALS in
+         if (&&) (negb eq) (negb (tt_eqb t0.tt TNOT_EQUALS))
+         then rt_error t0 c
+         else if negb (dt_eq lr.r_type rr.r_type)
+              then ret (res_of KBool (PBool (negb eq)))
+              else let fin = fun ceq ->
+                     ret (res_of KBool (PBool (if eq then ceq else negb ceq)))
+                   in
+                   (match lr.r_type.dk with
+                    | KBool ->
+                      bind (as_bool lr) (fun a ->
+                        bind (as_bool rr) (fun b -> fin (eqb a b)))
+                    | KStr ->
+                      bind (as_str lr) (fun a ->
+                        bind (as_str rr) (fun b -> fin (str_eqb a b)))
+                    | KEnum ->
+                      bind (as_payload lr) (fun a ->
+                        bind (as_payload rr) (fun b ->
+                          match a with
+                          | PEnum (_, i) ->
+                            (match b with
+                             | PEnum (_, j) -> fin (Z.eqb i j)
+                             | _ ->
+                               crash
+                                 ('g'::('e'::('t'::('<'::('E'::('n'::('u'::('m'::('>'::(' '::('o'::('n'::(' '::('o'::('t'::('h'::('e'::('r'::(' '::('p'::('a'::('y'::('l'::('o'::('a'::('d'::[])))))))))))))))))))))))))))
+                          | _ ->
+                            crash
+                              ('g'::('e'::('t'::('<'::('E'::('n'::('u'::('m'::('>'::(' '::('o'::('n'::(' '::('o'::('t'::('h'::('e'::('r'::(' '::('p'::('a'::('y'::('l'::('o'::('a'::('d'::[]))))))))))))))))))))))))))))
+                    | _ -> rt_error t0 c)
+    else if (&&) (dt_is lr.r_type KInt) (dt_is rr.r_type KInt)
+         then bind (as_int lr) (fun a ->
+                bind (as_int rr) (fun b ->
+                  match t0.tt with
+                  | TEQUALS -> ret (res_of KBool (PBool (Z.eqb a b)))
+                  | TNOT_EQUALS ->
+                    ret (res_of KBool (PBool (negb (Z.eqb a b))))
+                  | TGREATER -> ret (res_of KBool (PBool (Z.ltb b a)))
+                  | TLESSER -> ret (res_of KBool (PBool (Z.ltb a b)))
+                  | TGREATER_EQUAL -> ret (res_of KBool (PBool (Z.leb b a)))
+                  | TLESSER_EQUAL -> ret (res_of KBool (PBool (Z.leb a b)))
+                  | _ ->
+                    crash
+                      ('c'::('o'::('m'::('p'::('a'::('r'::('i'::('s'::('o'::('n'::('.'::('c'::('p'::('p'::(' '::('o'::('p'::('e'::('r'::('a'::('t'::('o'::('r'::(' '::('a'::('b'::('o'::('r'::('t'::[])))))))))))))))))))))))))))))))
+         else bind (num_as_real lr) (fun a ->
+                bind (num_as_real rr) (fun b ->
+                  match t0.tt with
+                  | TEQUALS -> ret (res_of KBool (PBool (req a b)))
+                  | TNOT_EQUALS -> ret (res_of KBool (PBool (rne a b)))
+                  | TGREATER -> ret (res_of KBool (PBool (rgt a b)))
+                  | TLESSER -> ret (res_of KBool (PBool (rlt a b)))
+                  | TGREATER_EQUAL -> ret (res_of KBool (PBool (rge a b)))
+                  | TLESSER_EQUAL -> ret (res_of KBool (PBool (rle a b)))
+                  | _ ->
+                    crash
+                      ('c'::('o'::('m'::('p'::('a'::('r'::('i'::('s'::('o'::('n'::('.'::('c'::('p'::('p'::(' '::('o'::('p'::('e'::('r'::('a'::('t'::('o'::('r'::(' '::('a'::('b'::('o'::('r'::('t'::[]))))))))))))))))))))))))))))))))
+
 (** val read_line : (str * bool) m **)
 
 let read_line =
@@ -7501,144 +7931,6 @@ let read_line =
     in
     let (p0, eof) = go inp [] in
     let (l, r) = p0 in bind (modify (set_in r)) (fun _ -> ret (l, eof)))
-
-(** val os_name_ok : str -> bool **)
-
-let os_name_ok n0 = match n0 with
-| [] -> false
-| _ :: _ ->
-  (&&)
-    ((&&)
-      ((&&)
-        (forallb (fun c -> (&&) (negb (aeqb c '/')) (negb (aeqb c ch_nul)))
-          n0)
-        (Z.leb (Z.of_nat (length n0)) (Zpos (XI (XI (XI (XI (XI (XI (XI
-          XH)))))))))) (negb (str_eqb n0 (str_of_string ('.'::[])))))
-    (negb (str_eqb n0 (str_of_string ('.'::('.'::[])))))
-
-(** val fs_set : str -> str -> (str * str) list -> (str * str) list **)
-
-let rec fs_set n0 v = function
-| [] -> (n0, v) :: []
-| p0 :: r ->
-  let (k, x) = p0 in
-  if str_eqb n0 k then (k, v) :: r else (k, x) :: (fs_set n0 v r)
-
-(** val fs_get : str -> (str * str) list -> str option **)
-
-let fs_get =
-  assoc_str
-
-(** val find_file : str -> ofile list -> ofile option **)
-
-let rec find_file n0 = function
-| [] -> None
-| f :: r -> if str_eqb f.of_name n0 then Some f else find_file n0 r
-
-(** val replace_file : ofile -> ofile list -> ofile list **)
-
-let rec replace_file f = function
-| [] -> []
-| g :: r ->
-  if str_eqb g.of_name f.of_name then f :: r else g :: (replace_file f r)
-
-(** val remove_file : str -> ofile list -> ofile list **)
-
-let rec remove_file n0 = function
-| [] -> []
-| g :: r -> if str_eqb g.of_name n0 then r else g :: (remove_file n0 r)
-
-(** val close_file_effect : ofile -> unit m **)
-
-let close_file_effect f =
-  match f.of_mode with
-  | FRandom ->
-    if f.of_modified
-    then modify (fun s ->
-           set_fs (fs_set f.of_name (store_records f.of_recs) s.s_fs) s)
-    else ret ()
-  | _ -> ret ()
-
-(** val create_file : str -> fmode -> bool m **)
-
-let create_file name mode =
-  if negb (os_name_ok name)
-  then ret false
-  else bind (gets (fun s -> s.s_fs)) (fun fs ->
-         match fs_get name fs with
-         | Some content ->
-           (match mode with
-            | FRead ->
-              bind
-                (modify (fun s ->
-                  set_files
-                    (app s.s_files ({ of_name = name; of_mode = FRead;
-                      of_rest = content; of_recs = []; of_ptr = Z0;
-                      of_modified = false } :: [])) s)) (fun _ -> ret true)
-            | FWrite ->
-              bind
-                (modify (fun s ->
-                  set_fs (fs_set name [] s.s_fs)
-                    (set_files
-                      (app s.s_files ({ of_name = name; of_mode = FWrite;
-                        of_rest = []; of_recs = []; of_ptr = Z0;
-                        of_modified = false } :: [])) s))) (fun _ -> 
-                ret true)
-            | FAppend ->
-              bind
-                (modify (fun s ->
-                  set_files
-                    (app s.s_files ({ of_name = name; of_mode = FAppend;
-                      of_rest = []; of_recs = []; of_ptr = Z0; of_modified =
-                      false } :: [])) s)) (fun _ -> ret true)
-            | FRandom ->
-              bind
-                (modify (fun s ->
-                  set_files
-                    (app s.s_files ({ of_name = name; of_mode = FRandom;
-                      of_rest = []; of_recs = (load_records content);
-                      of_ptr = Z0; of_modified = false } :: [])) s))
-                (fun _ -> ret true))
-         | None ->
-           (match mode with
-            | FRead -> ret false
-            | FAppend -> ret false
-            | x ->
-              bind
-                (modify (fun s ->
-                  set_fs (fs_set name [] s.s_fs)
-                    (set_files
-                      (app s.s_files ({ of_name = name; of_mode = x;
-                        of_rest = []; of_recs = []; of_ptr = Z0;
-                        of_modified = false } :: [])) s))) (fun _ -> 
-                ret true)))
-
-(** val update_file : ofile -> unit m **)
-
-let update_file f =
-  modify (fun s -> set_files (replace_file f s.s_files) s)
-
-(** val file_read_line : ofile -> str * ofile **)
-
-let file_read_line f =
-  let go =
-    let rec go s acc =
-      match s with
-      | [] -> ((rev acc), [])
-      | c :: r -> if aeqb c ch_nl then ((rev acc), r) else go r (c :: acc)
-    in go
-  in
-  let (l, r) = go f.of_rest [] in
-  (l, { of_name = f.of_name; of_mode = f.of_mode; of_rest = r; of_recs =
-  f.of_recs; of_ptr = f.of_ptr; of_modified = f.of_modified })
-
-(** val set_nth_str : str list -> z -> str -> str list **)
-
-let rec set_nth_str l i v =
-  match l with
-  | [] -> []
-  | x :: r ->
-    if Z.eqb i Z0 then v :: r else x :: (set_nth_str r (Z.sub i (Zpos XH)) v)
 
 (** val enum_name : n -> str -> z -> str m **)
 
@@ -8192,6 +8484,17 @@ let hfuel =
     (S (S (S (S (S (S (S (S (S (S (S (S (S (S (S
     O)))))))))))))))))))))))))))))))))))))))))))))))))))))))))))))))
 
+(** val store_value : token -> n -> n -> result -> result m **)
+
+let store_value t0 c id v =
+  bind (get_cell id) (fun cl ->
+    if cl.c_const
+    then rt_error t0 c
+    else bind (implicit_cast cl.c_type v) (fun v' ->
+           if negb (dt_eq cl.c_type v'.r_type)
+           then rt_error t0 c
+           else bind (assign_val hfuel id v') (fun _ -> ret res_none)))
+
 (** val expect_holder_var : token -> n -> holder -> n m **)
 
 let expect_holder_var t0 c = function
@@ -8297,201 +8600,10 @@ let run_block pedantic repl lim =
                 else rt_error t0 c)
        | NArith (t0, l, r) ->
          bind (eval f l c) (fun lr0 ->
-           bind (eval f r c) (fun rr0 ->
-             let swap = (&&) (dt_is lr0.r_type KInt) (dt_is rr0.r_type KEnum)
-             in
-             let lr = if swap then rr0 else lr0 in
-             let rr = if swap then lr0 else rr0 in
-             if (&&) ((&&) (dt_is lr.r_type KEnum) (dt_is rr.r_type KInt))
-                  ((||) (tt_eqb t0.tt TPLUS) (tt_eqb t0.tt TMINUS))
-             then bind (as_payload lr) (fun p0 ->
-                    bind (as_int rr) (fun k ->
-                      match p0 with
-                      | PEnum (tn, idx) ->
-                        bind (lookup_enum_def c tn true) (fun d ->
-                          match d with
-                          | Some vals ->
-                            let n1 = Z.of_nat (length vals) in
-                            if Z.eqb n1 Z0
-                            then crash
-                                   ('e'::('n'::('u'::('m'::(' '::('a'::('r'::('i'::('t'::('h'::('m'::('e'::('t'::('i'::('c'::(':'::(' '::('r'::('e'::('m'::('a'::('i'::('n'::('d'::('e'::('r'::(' '::('b'::('y'::(' '::('z'::('e'::('r'::('o'::[]))))))))))))))))))))))))))))))))))
-                            else if swap
-                                 then ret { r_type = { dk = KEnum; dname =
-                                        (Some tn) }; r_val = (Some (PEnum
-                                        (tn,
-                                        (enum_arith (tt_eqb t0.tt TPLUS) k
-                                          idx n1)))) }
-                                 else ret { r_type = { dk = KEnum; dname =
-                                        (Some tn) }; r_val = (Some (PEnum
-                                        (tn,
-                                        (enum_arith (tt_eqb t0.tt TPLUS) idx
-                                          k n1)))) }
-                          | None ->
-                            crash
-                              ('u'::('s'::('e'::('r'::('T'::('y'::('p'::('e'::('.'::('c'::('p'::('p'::(' '::('E'::('n'::('u'::('m'::(':'::(':'::('g'::('e'::('t'::('D'::('e'::('f'::('i'::('n'::('i'::('t'::('i'::('o'::('n'::(' '::('n'::('u'::('l'::('l'::[]))))))))))))))))))))))))))))))))))))))
-                      | _ ->
-                        crash
-                          ('g'::('e'::('t'::('<'::('E'::('n'::('u'::('m'::('>'::(' '::('o'::('n'::(' '::('o'::('t'::('h'::('e'::('r'::(' '::('p'::('a'::('y'::('l'::('o'::('a'::('d'::[]))))))))))))))))))))))))))))
-             else if (||) (negb (is_numeric lr.r_type))
-                       (negb (is_numeric rr.r_type))
-                  then rt_error t0 c
-                  else if (&&) (dt_is lr.r_type KInt) (dt_is rr.r_type KInt)
-                       then bind (as_int lr) (fun a ->
-                              bind (as_int rr) (fun b ->
-                                match t0.tt with
-                                | TPLUS ->
-                                  ret
-                                    (res_of KInt (PInt (arith_int t0.tt a b)))
-                                | TMINUS ->
-                                  ret
-                                    (res_of KInt (PInt (arith_int t0.tt a b)))
-                                | TSTAR ->
-                                  ret
-                                    (res_of KInt (PInt (arith_int t0.tt a b)))
-                                | TSLASH ->
-                                  if Z.eqb b Z0
-                                  then rt_error t0 c
-                                  else ret
-                                         (res_of KReal (PReal
-                                           (rdiv (real_of_z a) (real_of_z b))))
-                                | TDIV ->
-                                  if Z.eqb b Z0
-                                  then rt_error t0 c
-                                  else ret
-                                         (res_of KInt (PInt
-                                           (arith_int t0.tt a b)))
-                                | TMOD ->
-                                  if Z.eqb b Z0
-                                  then rt_error t0 c
-                                  else ret
-                                         (res_of KInt (PInt
-                                           (arith_int t0.tt a b)))
-                                | _ ->
-                                  crash
-                                    ('a'::('r'::('i'::('t'::('h'::('m'::('e'::('t'::('i'::('c'::('.'::('c'::('p'::('p'::(' '::('o'::('p'::('e'::('r'::('a'::('t'::('o'::('r'::(' '::('a'::('b'::('o'::('r'::('t'::[])))))))))))))))))))))))))))))))
-                       else bind (num_as_real lr) (fun a ->
-                              bind (num_as_real rr) (fun b ->
-                                match t0.tt with
-                                | TPLUS ->
-                                  ret (res_of KReal (PReal (radd a b)))
-                                | TMINUS ->
-                                  ret (res_of KReal (PReal (rsub a b)))
-                                | TSTAR ->
-                                  ret (res_of KReal (PReal (rmul a b)))
-                                | TSLASH ->
-                                  if is_rzero b
-                                  then rt_error t0 c
-                                  else ret (res_of KReal (PReal (rdiv a b)))
-                                | TDIV ->
-                                  if is_rzero b
-                                  then rt_error t0 c
-                                  else ret
-                                         (res_of KInt (PInt
-                                           (real_to_int64 (rfloor (rdiv a b)))))
-                                | TMOD ->
-                                  if is_rzero b
-                                  then rt_error t0 c
-                                  else ret
-                                         (res_of KReal (PReal (mod_real a b)))
-                                | _ ->
-                                  crash
-                                    ('a'::('r'::('i'::('t'::('h'::('m'::('e'::('t'::('i'::('c'::('.'::('c'::('p'::('p'::(' '::('o'::('p'::('e'::('r'::('a'::('t'::('o'::('r'::(' '::('a'::('b'::('o'::('r'::('t'::[])))))))))))))))))))))))))))))))))
+           bind (eval f r c) (fun rr0 -> eval_arith t0 c lr0 rr0))
        | NCmp (t0, l, r) ->
          bind (eval f l c) (fun lr0 ->
-           bind (eval f r c) (fun rr0 ->
-             bind
-               (if (&&) (dt_is lr0.r_type KChar) (dt_is rr0.r_type KChar)
-                then bind (as_char lr0) (fun a ->
-                       bind (as_char rr0) (fun b ->
-                         ret ((res_of KInt (PInt (schar_of_ascii a))),
-                           (res_of KInt (PInt (schar_of_ascii b))))))
-                else if (&&) (dt_is lr0.r_type KDate) (dt_is rr0.r_type KDate)
-                     then bind (as_payload lr0) (fun a ->
-                            bind (as_payload rr0) (fun b ->
-                              match a with
-                              | PDate (d1, m1, y1) ->
-                                (match b with
-                                 | PDate (d2, m2, y2) ->
-                                   ret
-                                     ((res_of KInt (PInt (date_key d1 m1 y1))),
-                                     (res_of KInt (PInt (date_key d2 m2 y2))))
-                                 | _ ->
-                                   crash
-                                     ('g'::('e'::('t'::('<'::('D'::('a'::('t'::('e'::('>'::(' '::('o'::('n'::(' '::('o'::('t'::('h'::('e'::('r'::(' '::('p'::('a'::('y'::('l'::('o'::('a'::('d'::[])))))))))))))))))))))))))))
-                              | _ ->
-                                crash
-                                  ('g'::('e'::('t'::('<'::('D'::('a'::('t'::('e'::('>'::(' '::('o'::('n'::(' '::('o'::('t'::('h'::('e'::('r'::(' '::('p'::('a'::('y'::('l'::('o'::('a'::('d'::[]))))))))))))))))))))))))))))
-                     else ret (lr0, rr0)) (fun x ->
-               let (lr, rr) = x in
-               if (||) (negb (is_numeric lr.r_type))
-                    (negb (is_numeric rr.r_type))
-               then let eq = tt_eqb t0.tt TEQUALS in
-                    if (&&) (negb eq) (negb (tt_eqb t0.tt TNOT_EQUALS))
-                    then rt_error t0 c
-                    else if negb (dt_eq lr.r_type rr.r_type)
-                         then ret (res_of KBool (PBool (negb eq)))
-                         else let fin = fun ceq ->
-                                ret
-                                  (res_of KBool (PBool
-                                    (if eq then ceq else negb ceq)))
-                              in
-                              (match lr.r_type.dk with
-                               | KBool ->
-                                 bind (as_bool lr) (fun a ->
-                                   bind (as_bool rr) (fun b -> fin (eqb a b)))
-                               | KStr ->
-                                 bind (as_str lr) (fun a ->
-                                   bind (as_str rr) (fun b ->
-                                     fin (str_eqb a b)))
-                               | KEnum ->
-                                 bind (as_payload lr) (fun a ->
-                                   bind (as_payload rr) (fun b ->
-                                     match a with
-                                     | PEnum (_, i) ->
-                                       (match b with
-                                        | PEnum (_, j) -> fin (Z.eqb i j)
-                                        | _ ->
-                                          crash
-                                            ('g'::('e'::('t'::('<'::('E'::('n'::('u'::('m'::('>'::(' '::('o'::('n'::(' '::('o'::('t'::('h'::('e'::('r'::(' '::('p'::('a'::('y'::('l'::('o'::('a'::('d'::[])))))))))))))))))))))))))))
-                                     | _ ->
-                                       crash
-                                         ('g'::('e'::('t'::('<'::('E'::('n'::('u'::('m'::('>'::(' '::('o'::('n'::(' '::('o'::('t'::('h'::('e'::('r'::(' '::('p'::('a'::('y'::('l'::('o'::('a'::('d'::[]))))))))))))))))))))))))))))
-                               | _ -> rt_error t0 c)
-               else if (&&) (dt_is lr.r_type KInt) (dt_is rr.r_type KInt)
-                    then bind (as_int lr) (fun a ->
-                           bind (as_int rr) (fun b ->
-                             match t0.tt with
-                             | TEQUALS ->
-                               ret (res_of KBool (PBool (Z.eqb a b)))
-                             | TNOT_EQUALS ->
-                               ret (res_of KBool (PBool (negb (Z.eqb a b))))
-                             | TGREATER ->
-                               ret (res_of KBool (PBool (Z.ltb b a)))
-                             | TLESSER ->
-                               ret (res_of KBool (PBool (Z.ltb a b)))
-                             | TGREATER_EQUAL ->
-                               ret (res_of KBool (PBool (Z.leb b a)))
-                             | TLESSER_EQUAL ->
-                               ret (res_of KBool (PBool (Z.leb a b)))
-                             | _ ->
-                               crash
-                                 ('c'::('o'::('m'::('p'::('a'::('r'::('i'::('s'::('o'::('n'::('.'::('c'::('p'::('p'::(' '::('o'::('p'::('e'::('r'::('a'::('t'::('o'::('r'::(' '::('a'::('b'::('o'::('r'::('t'::[])))))))))))))))))))))))))))))))
-                    else bind (num_as_real lr) (fun a ->
-                           bind (num_as_real rr) (fun b ->
-                             match t0.tt with
-                             | TEQUALS -> ret (res_of KBool (PBool (req a b)))
-                             | TNOT_EQUALS ->
-                               ret (res_of KBool (PBool (rne a b)))
-                             | TGREATER ->
-                               ret (res_of KBool (PBool (rgt a b)))
-                             | TLESSER -> ret (res_of KBool (PBool (rlt a b)))
-                             | TGREATER_EQUAL ->
-                               ret (res_of KBool (PBool (rge a b)))
-                             | TLESSER_EQUAL ->
-                               ret (res_of KBool (PBool (rle a b)))
-                             | _ ->
-                               crash
-                                 ('c'::('o'::('m'::('p'::('a'::('r'::('i'::('s'::('o'::('n'::('.'::('c'::('p'::('p'::(' '::('o'::('p'::('e'::('r'::('a'::('t'::('o'::('r'::(' '::('a'::('b'::('o'::('r'::('t'::[]))))))))))))))))))))))))))))))))))
+           bind (eval f r c) (fun rr0 -> eval_cmp t0 c lr0 rr0))
        | NLogic (t0, l, r) ->
          bind (eval f l c) (fun lr ->
            let is_and = tt_eqb t0.tt TAND in
@@ -8621,15 +8733,7 @@ let run_block pedantic repl lim =
                                                 (fun _ -> ret nid))))
                             | _ -> None)
                          | _ -> None)
-                      | _ -> None)) (fun id ->
-                    bind (get_cell id) (fun cl ->
-                      if cl.c_const
-                      then rt_error t0 c
-                      else bind (implicit_cast cl.c_type v) (fun v' ->
-                             if negb (dt_eq cl.c_type v'.r_type)
-                             then rt_error t0 c
-                             else bind (assign_val hfuel id v') (fun _ ->
-                                    ret res_none))))
+                      | _ -> None)) (fun id -> store_value t0 c id v)
            | None ->
              (match e with
               | NAccess (ta, ra) ->
@@ -8799,80 +8903,24 @@ let run_block pedantic repl lim =
                     ctx_with_comps (app k.x_comps ((name.tval, body) :: [])) k))
                   (fun _ -> ret res_none))
        | NIf (t0, comps) ->
-         let rec go = function
-         | [] -> ret res_none
-         | p0 :: rest0 ->
-           let (o, b) = p0 in
-           (match o with
-            | Some cond ->
-              bind (eval f cond c) (fun cr ->
-                if negb (dt_is cr.r_type KBool)
-                then rt_error t0 c
-                else bind (as_bool cr) (fun v ->
-                       if v
-                       then bind (run_block0 f b c) (fun _ -> ret res_none)
-                       else go rest0))
-            | None -> bind (run_block0 f b c) (fun _ -> ret res_none))
-         in go comps
+         if_chain t0 c
+           (map (fun p0 ->
+             ((match fst p0 with
+               | Some e -> Some (eval f e c)
+               | None -> None), (run_block0 f (snd p0) c))) comps)
        | NCase (_, sel, cases) ->
          bind (eval f sel c) (fun v ->
-           let rec go = function
-           | [] -> ret res_none
-           | c0 :: rest0 ->
-             (match c0 with
-              | CEq (b, e) ->
-                bind (case_equals f v e c) (fun m0 ->
-                  if m0
-                  then bind (run_block0 f b c) (fun _ -> ret res_none)
-                  else go rest0)
-              | CRange (b, lo, hi) ->
-                bind (case_range f v lo hi c) (fun m0 ->
-                  if m0
-                  then bind (run_block0 f b c) (fun _ -> ret res_none)
-                  else go rest0)
-              | COther b -> bind (run_block0 f b c) (fun _ -> ret res_none))
-           in go cases)
+           case_chain
+             (map (fun cc ->
+               match cc with
+               | CEq (b, e) -> ((case_equals f v e c), (run_block0 f b c))
+               | CRange (b, lo, hi) ->
+                 ((case_range f v lo hi c), (run_block0 f b c))
+               | COther b -> ((ret true), (run_block0 f b c))) cases))
        | NWhile (t0, cond, body) ->
-         let rec loop = function
-         | O -> failm FFuel
-         | S k' ->
-           bind (tick lim t0 c) (fun _ ->
-             bind (eval f cond c) (fun cr ->
-               if negb (dt_is cr.r_type KBool)
-               then rt_error t0 c
-               else bind (as_bool cr) (fun v ->
-                      if negb v
-                      then ret res_none
-                      else bind
-                             (catch
-                               (bind (run_block0 f body c) (fun _ ->
-                                 ret true)) (fun fl ->
-                               match fl with
-                               | FBreak _ -> Some (ret false)
-                               | FContinue _ -> Some (ret true)
-                               | _ -> None)) (fun go_on ->
-                             if go_on then loop k' else ret res_none))))
-         in loop f
+         while_loop lim f t0 c (eval f cond c) (run_block0 f body c)
        | NRepeat (t0, cond, body) ->
-         let rec loop = function
-         | O -> failm FFuel
-         | S k' ->
-           bind (tick lim t0 c) (fun _ ->
-             bind
-               (catch (bind (run_block0 f body c) (fun _ -> ret true))
-                 (fun fl ->
-                 match fl with
-                 | FBreak _ -> Some (ret false)
-                 | FContinue _ -> Some (ret true)
-                 | _ -> None)) (fun go_on ->
-               if negb go_on
-               then ret res_none
-               else bind (eval f cond c) (fun cr ->
-                      if negb (dt_is cr.r_type KBool)
-                      then rt_error t0 c
-                      else bind (as_bool cr) (fun v ->
-                             if v then ret res_none else loop k'))))
-         in loop f
+         repeat_loop lim f t0 c (eval f cond c) (run_block0 f body c)
        | NFor (t0, id, start, stop, step, body) ->
          bind (lookup_var c id.tval true) (fun ex ->
            bind
@@ -8906,62 +8954,8 @@ let run_block pedantic repl lim =
                                            bind (as_int er) (fun ev ->
                                              bind (set_cell_val it (PInt sv))
                                                (fun _ ->
-                                               let rec loop = function
-                                               | O -> failm FFuel
-                                               | S k' ->
-                                                 bind (get_cell it)
-                                                   (fun cl ->
-                                                   match cl.c_val with
-                                                   | PInt i ->
-                                                     if if Z.ltb stepv Z0
-                                                        then Z.leb ev i
-                                                        else Z.leb i ev
-                                                     then bind
-                                                            (tick lim t0 c)
-                                                            (fun _ ->
-                                                            bind
-                                                              (catch
-                                                                (bind
-                                                                  (run_block0
-                                                                    f body c)
-                                                                  (fun _ ->
-                                                                  ret true))
-                                                                (fun fl ->
-                                                                match fl with
-                                                                | FBreak _ ->
-                                                                  Some
-                                                                    (ret
-                                                                    false)
-                                                                | FContinue _ ->
-                                                                  Some
-                                                                    (ret true)
-                                                                | _ -> None))
-                                                              (fun go_on ->
-                                                              if negb go_on
-                                                              then ret
-                                                                    res_none
-                                                              else bind
-                                                                    (get_cell
-                                                                    it)
-                                                                    (fun cl' ->
-                                                                    match cl'.c_val with
-                                                                    | PInt j ->
-                                                                    bind
-                                                                    (set_cell_val
-                                                                    it (PInt
-                                                                    (wrap64
-                                                                    (Z.add j
-                                                                    stepv))))
-                                                                    (fun _ ->
-                                                                    loop k')
-                                                                    | _ ->
-                                                                    crash
-                                                                    ('c'::('e'::('l'::('l'::(' '::('p'::('a'::('y'::('l'::('o'::('a'::('d'::(' '::('d'::('i'::('s'::('a'::('g'::('r'::('e'::('e'::('s'::(' '::('w'::('i'::('t'::('h'::(' '::('i'::('t'::('s'::(' '::('t'::('y'::('p'::('e'::[])))))))))))))))))))))))))))))))))))))))
-                                                     else ret res_none
-                                                   | _ ->
-                                                     crash
-                                                       ('c'::('e'::('l'::('l'::(' '::('p'::('a'::('y'::('l'::('o'::('a'::('d'::(' '::('d'::('i'::('s'::('a'::('g'::('r'::('e'::('e'::('s'::(' '::('w'::('i'::('t'::('h'::(' '::('i'::('t'::('s'::(' '::('t'::('y'::('p'::('e'::[])))))))))))))))))))))))))))))))))))))
-                                               in loop f)))))))))
+                                               for_loop lim f t0 c it stepv
+                                                 ev (run_block0 f body c))))))))))
        | NBreak t0 -> failm (FBreak t0)
        | NContinue t0 -> failm (FContinue t0)
        | NProc (t0, name, params, body) ->
@@ -9184,21 +9178,11 @@ let run_block pedantic repl lim =
                                   | Some fh ->
                                     (match fh.of_mode with
                                      | FRandom ->
-                                       if Z.ltb
-                                            (Z.add
-                                              (Z.of_nat (length fh.of_recs))
-                                              (Zpos XH)) addr
-                                       then rt_error t0 c
-                                       else bind
-                                              (update_file { of_name =
-                                                fh.of_name; of_mode =
-                                                FRandom; of_rest =
-                                                fh.of_rest; of_recs =
-                                                fh.of_recs; of_ptr =
-                                                (Z.sub addr (Zpos XH));
-                                                of_modified =
-                                                fh.of_modified }) (fun _ ->
-                                              ret res_none)
+                                       (match rf_seek fh addr with
+                                        | Some fh' ->
+                                          bind (update_file fh') (fun _ ->
+                                            ret res_none)
+                                        | None -> rt_error t0 c)
                                      | _ -> rt_error t0 c)
                                   | None -> rt_error t0 c)))))
        | NGetRecord (t0, fn, id) ->
@@ -9228,7 +9212,7 @@ let run_block pedantic repl lim =
                                          | None -> ret ()) (fun _ ->
                                         if cl.c_const
                                         then rt_error t0 c
-                                        else (match nth_z fh.of_recs fh.of_ptr with
+                                        else (match rf_get fh with
                                               | Some rec0 ->
                                                 bind
                                                   (abs_val hfuel c cl.c_val)
@@ -9249,7 +9233,7 @@ let run_block pedantic repl lim =
                                   bind (get_arr aid) (fun a ->
                                     if dt_is a.a_type KPtr
                                     then rt_error t0 c
-                                    else (match nth_z fh.of_recs fh.of_ptr with
+                                    else (match rf_get fh with
                                           | Some rec0 ->
                                             bind
                                               (mapM (fun e ->
@@ -9322,17 +9306,7 @@ let run_block pedantic repl lim =
                                                   ('N'::('a'::('N'::(' '::('t'::('e'::('x'::('t'::[]))))))))))
                                    | None -> not_defined_error id c))
                                (fun txt ->
-                               let n1 = Z.of_nat (length fh.of_recs) in
-                               let recs' =
-                                 if Z.eqb fh.of_ptr n1
-                                 then app fh.of_recs (txt :: [])
-                                 else set_nth_str fh.of_recs fh.of_ptr txt
-                               in
-                               bind
-                                 (update_file { of_name = fh.of_name;
-                                   of_mode = FRandom; of_rest = fh.of_rest;
-                                   of_recs = recs'; of_ptr = fh.of_ptr;
-                                   of_modified = true }) (fun _ ->
+                               bind (update_file (rf_put fh txt)) (fun _ ->
                                  ret res_none))))
                        | _ -> rt_error t0 c)
                     | None -> rt_error t0 c))))
